@@ -652,9 +652,9 @@ pub fn main(kind: Kind, args: &Args) -> Report {
         return rep;
     }
     let n_cases = match (kind, args.thorough()) {
-        (Kind::C06, false) => 400,
+        (Kind::C06, false) => 3000,
         (Kind::C06, true) => 20000,
-        (_, false) => 300,
+        (_, false) => 2000,
         (_, true) => 10000,
     };
     let deadline = Instant::now() + Duration::from_secs(args.budget_s(150, 1500));
